@@ -394,7 +394,7 @@ pub fn run(ctx: &RunCtx) -> Outcome {
         }
     }
     let rcfg = RandCfg { lits: vec!['a', 'B', 'b', 'A'], keepout: true, ..RandCfg::core() };
-    let cases = if quick { 30_000 } else { 500_000 };
+    let cases = if quick { 30_000 } else { 150_000 };
     let rtexts = gen::texts(&['a', 'A', 'B'], 3);
     stage_random(ctx, &mut o, &p, "random core grammar, mixed case", &rcfg, &rtexts, cases, &|_| true);
     o
